@@ -149,6 +149,7 @@ type Exec struct {
 	Uids    map[string]string // symbolic -> server upload id
 	Host    string            // Host header to use ("" = default)
 	Addr    func(r *Req)      // addressing-mode rewrite applied to every request (C16)
+	Sync    bool              // run the handler on the calling goroutine, let panics propagate
 	Timeout time.Duration
 }
 
@@ -204,6 +205,14 @@ func (x *Exec) Serve(r *Req) *Observed {
 	}
 	rec := httptest.NewRecorder()
 	obs := &Observed{Method: r.Method}
+	if x.Sync {
+		x.Sys.Handler.ServeHTTP(rec, hr)
+		res := rec.Result()
+		obs.Status = res.StatusCode
+		obs.Header = res.Header
+		obs.Body, _ = ioutil.ReadAll(res.Body)
+		return obs
+	}
 	done := make(chan struct{})
 	go func() {
 		defer close(done)
